@@ -74,10 +74,10 @@ def checkVdb (args res : List String) : Verdict :=
   | _, _ => .skip "bad vdb shape"
 
 /-- `refs vlist <ops> => ok | <first disagreement>`: the harness keeps the shadow (present variables, slots) itself -/
-def checkVlist (_args res : List String) : Verdict :=
+def checkVlist (what : String) (_args res : List String) : Verdict :=
   match res with
-  | ["ok"] => .ok "refs/vlist"
-  | [m] => .viol "refs-vlist" s!"variable list disagrees with its history: {m}"
+  | ["ok"] => .ok s!"refs/{what}"
+  | [m] => .viol s!"refs-{what}" s!"the object disagrees with the shadow of its history: {m}"
   | _ => .skip "bad vlist line"
 
 end LP.Driver
